@@ -109,3 +109,11 @@ func trunc(s string, n int) string {
 	}
 	return s
 }
+
+// heldPayloads reports payloads that changed after they were handed to the transport (the application
+// model keeps the very slice, as a queueing transport would).
+func heldPayloads(res *Result, check string, a *ap.App, what string) {
+	for _, d := range a.HeldPayloadsChanged() {
+		res.Violate("payload-changed-after-hand-over", fmt.Sprintf("%s: %s", what, d), M{"check": check, "history": what})
+	}
+}
